@@ -190,6 +190,10 @@ class TBRMMDesignParameters:
       raise ValueError('{} must be {} {}'.format(attr, op, bound))
     if isinstance(bound, int) and (value == float('inf') or int(value) != value):
       raise ValueError('{} must be an integer'.format(attr))
+    if isinstance(bound, int):
+      # Integer-valued floats are accepted: store them as integers, since the
+      # searches use these values as sizes, counts and slice bounds.
+      setattr(self, attr, int(value))
 
   def _test_value_within_bounds(self, lower, op1, attr, op2, upper):
     """Test that the value of the attribute is within the given bounds.
@@ -270,6 +274,9 @@ class TBRMMDesignParameters:
               (int(lower_range) != lower_range or
                int(upper_range) != upper_range)):
           raise ValueError('{} must be integers'.format(attr))
+        elif isinstance(lower, int):
+          # Integer-valued floats are accepted: store the range as integers.
+          setattr(self, attr, (int(lower_range), int(upper_range)))
       else:
         inv_op1 = self. _inverse_op[op1]
         if upper is float('inf'):
